@@ -250,7 +250,11 @@ def run_shard(desc):
             a, b = rand_pair(rnd)
             op = rnd.choice(OPS)
             form = rnd.random()
-            if form < 0.6:
+            if form < 0.12 and op in ("<", "<=", ">", ">=", "==", "!="):
+                # the negated forms, written both ways: `a not >= b` and `not (a >= b)`
+                t = ["un", "not", ["bin", op, gen.num_lit(*a), gen.num_lit(*b)]]
+                vars_ = {}
+            elif form < 0.6:
                 t = ["bin", op, gen.num_lit(*a), gen.num_lit(*b)]
                 vars_ = {}
             elif form < 0.8 or op not in ("+", "-", "*", "%"):
@@ -259,8 +263,8 @@ def run_shard(desc):
             else:
                 t = ["stmt", [["bin", "=", ["ref", "x"], gen.num_lit(*a)], ["bin", op + "=", ["ref", "x"], gen.num_lit(*b)], ["ref", "x"]]]
                 vars_ = {}
-            progs.append({"tree": t, "text": ref.Renderer().render(t), "vars": vars_})
-            labels.append("%s:%s:s%d,s%d" % (op, relation(a, b), min(a[1], 9) // 3, min(b[1], 9) // 3))
+            progs.append({"tree": t, "text": ref.Renderer(infix_not=(lambda node, _k=len(progs): _k % 2 == 0)).render(t), "vars": vars_})
+            labels.append("%s%s:%s:s%d,s%d" % ("not " if t[0] == "un" else "", op, relation(a, b), min(a[1], 9) // 3, min(b[1], 9) // 3))
         res, events = evalcheck.run_programs(PROP, "pair-%d" % si, progs, profile)
         for p, label, (st, detail, rec, exp, ev) in zip(progs, labels, res):
             if st in ("norecord", "skip-c02"):
